@@ -287,6 +287,25 @@ mut('read-returns-on-abort-before-end-handling', 'UncompressedFile.cpp', [["    
 mut('restore-offset-adjusted', 'File.cpp', [["            fileStatistics.restorePointsOffset = static_cast<uint64_t>(m_compressedFile.tellp());\n", "            fileStatistics.restorePointsOffset = static_cast<uint64_t>(m_compressedFile.tellp());\n            fileStatistics.restorePointsOffset -= LogContainer().calculateObjectSize();\n"]],
     ['C05'], ['H2|close|write'], 'the restore-point offset no longer designates the start of the trailing container')
 
+mut('throw-on-declared-header-size', 'File.cpp', [["    if (ohb.objectSize < ohb.calculateHeaderSize()) {", "    if ((ohb.objectSize < ohb.calculateHeaderSize()) || (ohb.objectSize < ohb.headerSize)) {"]],
+    ['C09'], ['S2|skip-and-throw-reasons'], 'an unknown object whose declared headerSize exceeds its objectSize ends the stream instead of being skipped')
+mut('factory-asked-conditionally', 'File.cpp', [["    ObjectHeaderBase * obj = createObject(ohb.objectType);\n    if (obj == nullptr) {", "    ObjectHeaderBase * obj = (ohb.headerSize >= 32) ? createObject(ohb.objectType) : nullptr;\n    if (obj == nullptr) {"]],
+    ['C09', 'C17', 'C01'], ['S2|skip-and-throw-reasons'], 'a LogContainer inside the stream (16-byte header) is dropped although the factory knows its type')
+mut('continue-at-padded-end', 'File.cpp', [["(objectBegin + static_cast<std::streamoff>(ohb.objectSize));", "(objectBegin + static_cast<std::streamoff>(ohb.objectSize + (ohb.objectSize % 4)));"]],
+    ['C09', 'C10'], ['T1|decode-loop'], 'the worker continues behind the padding it assumes: the first bytes of a following signature are swallowed when fewer fill bytes follow')
+mut('codes-swapped', 'ObjectHeaderBase.h', [["    DISTRIBUTED_OBJECT_MEMBER = 130,", "    DISTRIBUTED_OBJECT_MEMBER = 131,"], ["    ATTRIBUTE_EVENT = 131", "    ATTRIBUTE_EVENT = 130"]],
+    ['C17'], ['D7|code|'], 'two enumerators exchange their numbers: consistent by name, every file of the two types decodes as the other')
+mut('file-member-without-initialiser', 'File.h', [["    std::atomic<bool> m_compressedFileThreadRunning {};", "    std::atomic<bool> m_compressedFileThreadRunning {};\n\n    /** offset of the restore points */\n    uint64_t m_restorePointsOffset;"]],
+    ['C14'], ['D4|File|m_restorePointsOffset'], 'a File member that reaches the header has no initialiser')
+mut('container-size-rounded-up', 'File.cpp', [["void File::setDefaultLogContainerSize(uint32_t defaultLogContainerSize) {\n", "void File::setDefaultLogContainerSize(uint32_t defaultLogContainerSize) {\n    defaultLogContainerSize = (defaultLogContainerSize + 3) & ~3u;\n"]],
+    ['C04'], ['F4|configured-size|File::setDefaultLogContainerSize'], 'containers larger than the configured size whenever that is not a multiple of four')
+mut('cached-read-container', 'UncompressedFile.cpp', [["        /* find starting log container */\n        std::shared_ptr<LogContainer> logContainer = logContainerContaining(m_tellg);\n        if (!logContainer)\n            break;",
+                                                          "        /* find starting log container */\n        std::shared_ptr<LogContainer> logContainer = m_getLogContainer;\n        if (!logContainer || (m_tellg >= logContainer->uncompressedFileSize + logContainer->filePosition)) {\n            logContainer = logContainerContaining(m_tellg);\n            m_getLogContainer = logContainer;\n        }\n        if (!logContainer)\n            break;"]],
+    ['C15', 'C10', 'C01'], ['B7|UncompressedFile::read'], 'the cached container is stale after seekg() moved the get position back over its start: negative offset')
+M[-1]['extra_edits'] = [('UncompressedFile.h', [["    /** put position */\n    std::streampos m_tellp {};", "    /** log container of the last read */\n    std::shared_ptr<LogContainer> m_getLogContainer {};\n\n    /** put position */\n    std::streampos m_tellp {};"]])]
+mut('data-tail-skipped', 'CanFdMessage.cpp', [["    is.read(reinterpret_cast<char *>(data.data()), static_cast<std::streamsize>(data.size()));", "    is.read(reinterpret_cast<char *>(data.data()), validDataBytes & 63);\n    is.seekg(static_cast<std::streamoff>(data.size()) - (validDataBytes & 63), std::ios_base::cur);"]],
+    ['C02'], ['L7|CanFdMessage|skip'], 'the bytes of the fixed data field behind validDataBytes are stepped over: an image that carries something there is not reproduced')
+
 # ------------------------------------------------------------------ benign refactorings (must stay silent)
 ALL_LAYOUT = ['C01', 'C02', 'C03', 'C10', 'C14']
 ben('reorder-size-terms', 'AppText.cpp', [["        sizeof(source) +\n        sizeof(reservedAppText1) +", "        sizeof(reservedAppText1) +\n        sizeof(source) +"]], ALL_LAYOUT)
